@@ -111,17 +111,16 @@ funcs: spifconf_shell_expand
 */
 /*@unit
 name: exact_call_args
-define: U_EXACT, A_SPACE, A_PCT, A_PAREN, SHAPE="?%a(??)?", NMAX=8, BUFF=32, VERIF_EXACT_LIBC, VERIF_OWN_STRLEN, VERIF_OWN_STRCMP, VERIF_OWN_STRDUP, VERIF_OWN_STRCHR
+define: U_EXACT, A_SPACE, A_PCT, A_PAREN, SHAPE="%a(??)", NMAX=6, BUFF=32, VERIF_EXACT_LIBC, VERIF_OWN_STRLEN, VERIF_OWN_STRCMP, VERIF_OWN_STRDUP, VERIF_OWN_STRCHR
 src: conf.c
 tier: B
-bound: inputs of the shape ?%a(??)? -- each ? any of {a, space, %, (, )} -- in which every % starts a balanced call of the built-in a; line-buffer limit CONFIG_BUFF scaled to 32 bytes (stated re-binding)
-unwind: 10
-flags: --unwindset strlen.0:18,strcpy.0:18,vb_a.0:18,spiftool_safe_strncpy.0:12,mk_str.0:6,strncasecmp.0:3,spifconf_shell_expand:2,spifconf_shell_expand.7:2,spifconf_shell_expand.10:8,spifconf_shell_expand.15:1,spifconf_shell_expand.21:1,spifconf_shell_expand.22:1,spifconf_shell_expand.23:1,spifconf_shell_expand.28:9,harness.1:42
+bound: inputs of the shape %a(??) -- each ? any of {a, space, %, (, )} -- balanced; line-buffer limit CONFIG_BUFF scaled to 32 bytes (stated re-binding)
+unwind: 8
+flags: --unwindset strlen.0:14,strcpy.0:14,vb_a.0:14,spiftool_safe_strncpy.0:12,mk_str.0:6,strncasecmp.0:3,spifconf_shell_expand:1,spifconf_shell_expand.7:2,spifconf_shell_expand.10:6,spifconf_shell_expand.15:1,spifconf_shell_expand.21:1,spifconf_shell_expand.22:1,spifconf_shell_expand.23:1,spifconf_shell_expand.28:7,harness.1:42
 objbits: 10
 backend: sat
-timeout: 900
+timeout: 600
 quick: yes
-mem: 12
 funcs: spifconf_shell_expand
 */
 /*@unit
@@ -139,33 +138,73 @@ quick: yes
 funcs: spifconf_shell_expand
 */
 /*@unit
-name: exact_call_nested
-define: U_EXACT, A_SPACE, A_PCT, A_PAREN, SHAPE="%a(?%a(?))?", NMAX=11, BUFF=32, VERIF_EXACT_LIBC, VERIF_OWN_STRLEN, VERIF_OWN_STRCMP, VERIF_OWN_STRDUP, VERIF_OWN_STRCHR
+name: exact_call_prefix
+define: U_EXACT, A_SPACE, A_PCT, A_PAREN, SHAPE="??%a(a)", NMAX=7, BUFF=32, VERIF_EXACT_LIBC, VERIF_OWN_STRLEN, VERIF_OWN_STRCMP, VERIF_OWN_STRDUP, VERIF_OWN_STRCHR
 src: conf.c
 tier: B
-bound: inputs of the shape %a(?%a(?))? -- each ? any of {a, space, %, (, )} -- nested calls, innermost first; line-buffer limit CONFIG_BUFF scaled to 32 bytes (stated re-binding)
-unwind: 13
-flags: --unwindset strlen.0:20,strcpy.0:20,vb_a.0:20,spiftool_safe_strncpy.0:12,mk_str.0:6,strncasecmp.0:3,spifconf_shell_expand:2,spifconf_shell_expand.7:2,spifconf_shell_expand.10:11,spifconf_shell_expand.15:1,spifconf_shell_expand.21:1,spifconf_shell_expand.22:1,spifconf_shell_expand.23:1,spifconf_shell_expand.28:12,harness.1:42
+bound: inputs of the shape ??%a(a) -- each ? any of {a, space, %, (, )} -- in which every % starts a balanced call; line-buffer limit CONFIG_BUFF scaled to 32 bytes (stated re-binding)
+unwind: 9
+flags: --unwindset strlen.0:16,strcpy.0:16,vb_a.0:16,spiftool_safe_strncpy.0:12,mk_str.0:6,strncasecmp.0:3,spifconf_shell_expand:1,spifconf_shell_expand.7:2,spifconf_shell_expand.10:7,spifconf_shell_expand.15:1,spifconf_shell_expand.21:1,spifconf_shell_expand.22:1,spifconf_shell_expand.23:1,spifconf_shell_expand.28:8,harness.1:42
 objbits: 10
 backend: sat
-timeout: 900
+timeout: 600
 quick: yes
-mem: 12
+funcs: spifconf_shell_expand
+*/
+/*@unit
+name: exact_call_suffix
+define: U_EXACT, A_SPACE, A_PCT, A_PAREN, SHAPE="%a(a)??", NMAX=7, BUFF=32, VERIF_EXACT_LIBC, VERIF_OWN_STRLEN, VERIF_OWN_STRCMP, VERIF_OWN_STRDUP, VERIF_OWN_STRCHR
+src: conf.c
+tier: B
+bound: inputs of the shape %a(a)?? -- each ? any of {a, space, %, (, )} -- in which every % starts a balanced call; line-buffer limit CONFIG_BUFF scaled to 32 bytes (stated re-binding)
+unwind: 9
+flags: --unwindset strlen.0:16,strcpy.0:16,vb_a.0:16,spiftool_safe_strncpy.0:12,mk_str.0:6,strncasecmp.0:3,spifconf_shell_expand:1,spifconf_shell_expand.7:2,spifconf_shell_expand.10:7,spifconf_shell_expand.15:1,spifconf_shell_expand.21:1,spifconf_shell_expand.22:1,spifconf_shell_expand.23:1,spifconf_shell_expand.28:8,harness.1:42
+objbits: 10
+backend: sat
+timeout: 600
+quick: yes
+funcs: spifconf_shell_expand
+*/
+/*@unit
+name: exact_call_nested
+define: U_EXACT, A_SPACE, A_PCT, A_PAREN, SHAPE="%a(%a(?))", NMAX=9, BUFF=32, VERIF_EXACT_LIBC, VERIF_OWN_STRLEN, VERIF_OWN_STRCMP, VERIF_OWN_STRDUP, VERIF_OWN_STRCHR
+src: conf.c
+tier: B
+bound: inputs of the shape %a(%a(?)) and %a(?%a()) -- each ? any of {a, space, %, (, )} -- nested calls, innermost first; line-buffer limit CONFIG_BUFF scaled to 32 bytes (stated re-binding)
+unwind: 11
+flags: --unwindset strlen.0:20,strcpy.0:20,vb_a.0:20,spiftool_safe_strncpy.0:12,mk_str.0:6,strncasecmp.0:3,spifconf_shell_expand:2,spifconf_shell_expand.7:2,spifconf_shell_expand.10:9,spifconf_shell_expand.15:1,spifconf_shell_expand.21:1,spifconf_shell_expand.22:1,spifconf_shell_expand.23:1,spifconf_shell_expand.28:10,harness.1:42
+objbits: 10
+backend: sat
+timeout: 600
+quick: yes
+funcs: spifconf_shell_expand
+*/
+/*@unit
+name: exact_call_nested2
+define: U_EXACT, A_SPACE, A_PCT, A_PAREN, SHAPE="%a(?%a())", NMAX=9, BUFF=32, VERIF_EXACT_LIBC, VERIF_OWN_STRLEN, VERIF_OWN_STRCMP, VERIF_OWN_STRDUP, VERIF_OWN_STRCHR
+src: conf.c
+tier: B
+bound: inputs of the shape %a(?%a()) -- each ? any of {a, space, %, (, )} -- nested calls, innermost first; line-buffer limit CONFIG_BUFF scaled to 32 bytes (stated re-binding)
+unwind: 11
+flags: --unwindset strlen.0:20,strcpy.0:20,vb_a.0:20,spiftool_safe_strncpy.0:12,mk_str.0:6,strncasecmp.0:3,spifconf_shell_expand:2,spifconf_shell_expand.7:2,spifconf_shell_expand.10:9,spifconf_shell_expand.15:1,spifconf_shell_expand.21:1,spifconf_shell_expand.22:1,spifconf_shell_expand.23:1,spifconf_shell_expand.28:10,harness.1:42
+objbits: 10
+backend: sat
+timeout: 600
+quick: yes
 funcs: spifconf_shell_expand
 */
 /*@unit
 name: exact_call_seq
-define: U_EXACT, A_SPACE, A_PCT, A_PAREN, SHAPE="%a(?)?%a(?)", NMAX=11, BUFF=32, VERIF_EXACT_LIBC, VERIF_OWN_STRLEN, VERIF_OWN_STRCMP, VERIF_OWN_STRDUP, VERIF_OWN_STRCHR
+define: U_EXACT, A_SPACE, A_PCT, A_PAREN, SHAPE="%a(?)%a(?)", NMAX=10, BUFF=32, VERIF_EXACT_LIBC, VERIF_OWN_STRLEN, VERIF_OWN_STRCMP, VERIF_OWN_STRDUP, VERIF_OWN_STRCHR
 src: conf.c
 tier: B
-bound: inputs of the shape %a(?)?%a(?) -- each ? any of {a, space, %, (, )}; line-buffer limit CONFIG_BUFF scaled to 32 bytes (stated re-binding)
-unwind: 13
-flags: --unwindset strlen.0:20,strcpy.0:20,vb_a.0:20,spiftool_safe_strncpy.0:12,mk_str.0:6,strncasecmp.0:3,spifconf_shell_expand:1,spifconf_shell_expand.7:2,spifconf_shell_expand.10:11,spifconf_shell_expand.15:1,spifconf_shell_expand.21:1,spifconf_shell_expand.22:1,spifconf_shell_expand.23:1,spifconf_shell_expand.28:12,harness.1:42
+bound: inputs of the shape %a(?)%a(?) -- each ? any of {a, space, %, (, )}; line-buffer limit CONFIG_BUFF scaled to 32 bytes (stated re-binding)
+unwind: 12
+flags: --unwindset strlen.0:20,strcpy.0:20,vb_a.0:20,spiftool_safe_strncpy.0:12,mk_str.0:6,strncasecmp.0:3,spifconf_shell_expand:1,spifconf_shell_expand.7:2,spifconf_shell_expand.10:10,spifconf_shell_expand.15:1,spifconf_shell_expand.21:1,spifconf_shell_expand.22:1,spifconf_shell_expand.23:1,spifconf_shell_expand.28:11,harness.1:42
 objbits: 10
 backend: sat
-timeout: 900
+timeout: 600
 quick: yes
-mem: 12
 funcs: spifconf_shell_expand
 */
 /*@unit
@@ -184,17 +223,30 @@ funcs: spifconf_shell_expand
 */
 /*@unit
 name: exact_call_mixed
-define: U_EXACT, A_SPACE, A_TILDE, A_BS, A_SQ, A_DQ, A_PCT_FIXED, SHAPE="?%a(???)?", NMAX=9, BUFF=32, VERIF_EXACT_LIBC, VERIF_OWN_STRLEN, VERIF_OWN_STRCMP, VERIF_OWN_STRDUP, VERIF_OWN_STRCHR
+define: U_EXACT, A_SPACE, A_TILDE, A_BS, A_SQ, A_DQ, A_PCT_FIXED, SHAPE="%a(???)", NMAX=7, BUFF=32, VERIF_EXACT_LIBC, VERIF_OWN_STRLEN, VERIF_OWN_STRCMP, VERIF_OWN_STRDUP, VERIF_OWN_STRCHR
 src: conf.c
 tier: B
-bound: inputs of the shape ?%a(???)? -- each ? any of {a, space, ~, backslash, ', "}: quotes, tildes and escapes inside and around call arguments; line-buffer limit CONFIG_BUFF scaled to 32 bytes (stated re-binding)
-unwind: 11
-flags: --unwindset strlen.0:24,strcpy.0:24,vb_a.0:24,spiftool_safe_strncpy.0:12,mk_str.0:6,strncasecmp.0:3,spifconf_shell_expand:1,spifconf_shell_expand.7:2,spifconf_shell_expand.10:9,spifconf_shell_expand.15:1,spifconf_shell_expand.21:1,spifconf_shell_expand.22:1,spifconf_shell_expand.23:1,spifconf_shell_expand.28:10,harness.1:42
+bound: inputs of the shape %a(???) -- each ? any of {a, space, ~, backslash, ', "}: quotes, tildes and escapes inside call arguments; line-buffer limit CONFIG_BUFF scaled to 32 bytes (stated re-binding)
+unwind: 9
+flags: --unwindset strlen.0:24,strcpy.0:24,vb_a.0:24,spiftool_safe_strncpy.0:12,mk_str.0:6,strncasecmp.0:3,spifconf_shell_expand:1,spifconf_shell_expand.7:2,spifconf_shell_expand.10:7,spifconf_shell_expand.15:1,spifconf_shell_expand.21:1,spifconf_shell_expand.22:1,spifconf_shell_expand.23:1,spifconf_shell_expand.28:8,harness.1:42
 objbits: 10
 backend: sat
-timeout: 900
+timeout: 600
 quick: yes
-mem: 12
+funcs: spifconf_shell_expand
+*/
+/*@unit
+name: exact_call_quoted
+define: U_EXACT, A_SPACE, A_TILDE, A_SQ, A_DQ, A_PCT_FIXED, SHAPE="?%a(~)?", NMAX=7, BUFF=32, VERIF_EXACT_LIBC, VERIF_OWN_STRLEN, VERIF_OWN_STRCMP, VERIF_OWN_STRDUP, VERIF_OWN_STRCHR
+src: conf.c
+tier: B
+bound: inputs of the shape ?%a(~)? -- each ? any of {a, space, ~, ', "}: a call inside quotes; line-buffer limit CONFIG_BUFF scaled to 32 bytes (stated re-binding)
+unwind: 9
+flags: --unwindset strlen.0:24,strcpy.0:24,vb_a.0:24,spiftool_safe_strncpy.0:12,mk_str.0:6,strncasecmp.0:3,spifconf_shell_expand:1,spifconf_shell_expand.7:2,spifconf_shell_expand.10:7,spifconf_shell_expand.15:1,spifconf_shell_expand.21:1,spifconf_shell_expand.22:1,spifconf_shell_expand.23:1,spifconf_shell_expand.28:8,harness.1:42
+objbits: 10
+backend: sat
+timeout: 600
+quick: yes
 funcs: spifconf_shell_expand
 */
 /*@unit
